@@ -1,9 +1,318 @@
 import Driver.Proto
+import PolyVerif.Model.March
+import PolyVerif.Gen.MarchInterp
 
+/-
+  C09 driver.
+
+  model ops
+    c09.march.grid  ox oy oz nx ny nz v…      the model's marched mesh (global-grid semantics + the
+                                              block-fetch model) of an integer-tagged sample box; answer =
+                                              canonical sorted triangle list, positions ×4 as integers
+    c09.fetch …                               (see `handle`)
+  oracle ops (the decidable predicates of Props/C09 applied to the implementation's output)
+    c09.holds.closed   nv nt i…               every directed edge exactly once, its reverse exactly once, no degenerate face
+    c09.holds.outward  nv nt i… p…            signed volume > 0
+    c09.holds.near_iso cpu cutoff ns shapes… nv p…   every vertex lies on a lattice edge along which the analytic field changes sign
+-/
 namespace Driver.C09
+open PolyVerif PolyVerif.March PolyVerif.Gen.March
 
-/-- one request -> one answer line; `none` = unknown op / malformed -/
-def handle (_op : String) (_args : List String) : Option String := none
+/-! ### closedness -/
+
+/-- specification predicate (quadratic): the statement of `C09.march_closed` on an index list -/
+def closedSpec (tris : List (Nat × Nat × Nat)) : Bool :=
+  let es := tris.flatMap triEdges
+  tris.all (fun t => t.1 != t.2.1 && t.2.1 != t.2.2 && t.2.2 != t.1) &&
+  es.all (fun e => es.count e == 1 && es.count (e.2, e.1) == 1)
+
+def sortedNat (a : Array Nat) : Array Nat := a.qsort (· < ·)
+
+/-- the same predicate, n log n: sort the encoded directed edges; no duplicates; the multiset of
+    reversed edges is the same multiset -/
+def closedFast (nv : Nat) (tris : Array (Nat × Nat × Nat)) : Bool :=
+  let n := nv + 1
+  let nondeg := tris.all (fun t => t.1 != t.2.1 && t.2.1 != t.2.2 && t.2.2 != t.1 && t.1 < nv && t.2.1 < nv && t.2.2 < nv)
+  let fw := sortedNat (tris.flatMap fun t => #[t.1 * n + t.2.1, t.2.1 * n + t.2.2, t.2.2 * n + t.1])
+  let bw := sortedNat (tris.flatMap fun t => #[t.2.1 * n + t.1, t.2.2 * n + t.2.1, t.1 * n + t.2.2])
+  let nodup := (List.range (fw.size - 1)).all fun i => fw[i]! != fw[i+1]!
+  nondeg && nodup && fw == bw
+
+def trisOf (idx : Array Nat) : Array (Nat × Nat × Nat) :=
+  (Array.range (idx.size / 3)).map fun k => (idx[3*k]!, idx[3*k+1]!, idx[3*k+2]!)
+
+def closed (nv : Nat) (idx : Array Nat) : String :=
+  let tris := trisOf idx
+  let fast := idx.size % 3 == 0 && closedFast nv tris
+  -- small meshes: the fast evaluation must agree with the specification predicate
+  if tris.size ≤ 150 then
+    let spec := idx.size % 3 == 0 && closedSpec tris.toList && tris.all (fun t => t.1 < nv && t.2.1 < nv && t.2.2 < nv)
+    if fast == spec then boolStr spec else "oracle-self-check-failed"
+  else boolStr fast
+
+/-! ### orientation: signed volume -/
+
+def signedVolume6 (tris : Array (Nat × Nat × Nat)) (p : Array Float) : Float :=
+  tris.foldl (fun acc t =>
+    let ax := p[3*t.1]!; let ay := p[3*t.1+1]!; let az := p[3*t.1+2]!
+    let bx := p[3*t.2.1]!; let by' := p[3*t.2.1+1]!; let bz := p[3*t.2.1+2]!
+    let cx := p[3*t.2.2]!; let cy := p[3*t.2.2+1]!; let cz := p[3*t.2.2+2]!
+    acc + (ax * (by' * cz - bz * cy) - ay * (bx * cz - bz * cx) + az * (bx * cy - by' * cx))) 0.0
+
+/-! ### analytic fields (mirrors math/sdf at Float) -/
+
+inductive Shape where
+  | sphere (c : V3 Float) (r s : Float)
+  | box (c size : V3 Float) (s : Float)
+  | line (a b : V3 Float) (r s : Float)
+
+def dist (v o : V3 Float) : Float :=
+  let xd := o.x - v.x; let yd := o.y - v.y; let zd := o.z - v.z
+  Float.sqrt (xd * xd + yd * yd + zd * zd)
+
+def fmin (a b : Float) : Float := if a < b then a else b
+def fmax (a b : Float) : Float := if a > b then a else b
+
+def closestOnSeg (p1 p2 p : V3 Float) : V3 Float :=
+  let h : V3 Float := ⟨p2.x - p1.x, p2.y - p1.y, p2.z - p1.z⟩
+  let m := Float.sqrt (h.x * h.x + h.y * h.y + h.z * h.z)
+  let hn : V3 Float := ⟨h.x / m, h.y / m, h.z / m⟩
+  let l : V3 Float := ⟨p.x - p1.x, p.y - p1.y, p.z - p1.z⟩
+  let t := (l.x * hn.x + l.y * hn.y + l.z * hn.z) / m
+  if t ≥ 1 then p2 else if t ≤ 0 then p1
+  else ⟨p1.x + h.x * t, p1.y + h.y * t, p1.z + h.z * t⟩
+
+def Shape.eval (v : V3 Float) : Shape → Float
+  | .sphere c r s => (dist v c - r) * s
+  | .box c size s =>
+    let qx := (v.x - c.x).abs - size.x * 0.5
+    let qy := (v.y - c.y).abs - size.y * 0.5
+    let qz := (v.z - c.z).abs - size.z * 0.5
+    let inside := fmin (fmax qx (fmax qy qz)) 0
+    let mx := fmax qx 0; let my := fmax qy 0; let mz := fmax qz 0
+    (Float.sqrt (mx * mx + my * my + mz * mz) + inside) * s
+  | .line a b r s => (dist v (closestOnSeg a b v) - r) * s
+
+/-- union of shapes = pointwise minimum -/
+def fieldAt (shapes : List Shape) (v : V3 Float) : Float :=
+  match shapes with
+  | [] => 10.0
+  | s :: rest => rest.foldl (fun acc sh => fmin acc (sh.eval v)) (s.eval v)
+
+def parseShapes : Nat → List Float → Option (List Shape × List Float)
+  | 0, rest => some ([], rest)
+  | n+1, k :: rest =>
+    if k == 0.0 then
+      match rest with
+      | cx :: cy :: cz :: r :: s :: rest' => do
+        let (l, r') ← parseShapes n rest'; pure (Shape.sphere ⟨cx, cy, cz⟩ r s :: l, r')
+      | _ => none
+    else if k == 1.0 then
+      match rest with
+      | cx :: cy :: cz :: sx :: sy :: sz :: s :: rest' => do
+        let (l, r') ← parseShapes n rest'; pure (Shape.box ⟨cx, cy, cz⟩ ⟨sx, sy, sz⟩ s :: l, r')
+      | _ => none
+    else if k == 2.0 then
+      match rest with
+      | ax :: ay :: az :: bx :: by' :: bz :: r :: s :: rest' => do
+        let (l, r') ← parseShapes n rest'; pure (Shape.line ⟨ax, ay, az⟩ ⟨bx, by', bz⟩ r s :: l, r')
+      | _ => none
+    else none
+  | _, _ => none
+
+/-- `NearIso`: the vertex (world coordinates) lies, within `tol` lattice units, on a lattice edge
+    `[p, p+e_k]` of the sampling grid whose two end points — sampled exactly as the canvas samples them,
+    `float64(i) / cubesPerUnit` — are on different sides of the cutoff. -/
+def nearIsoVertex (shapes : List Shape) (cpu cutoff : Float) (v : V3 Float) : Bool :=
+  let tol : Float := 1e-6
+  let u : Array Float := #[v.x * cpu, v.y * cpu, v.z * cpu]
+  let r : Array Float := u.map Float.round
+  let sample (p : Array Float) : Float := fieldAt shapes ⟨p[0]! / cpu, p[1]! / cpu, p[2]! / cpu⟩
+  (List.range 3).any fun k =>
+    let j1 := (k + 1) % 3; let j2 := (k + 2) % 3
+    (u[j1]! - r[j1]!).abs ≤ tol && (u[j2]! - r[j2]!).abs ≤ tol &&
+    ([-1.0, 0.0, 1.0].any fun d =>
+      let lo := (u[k]!).floor + d
+      lo - tol ≤ u[k]! && u[k]! ≤ lo + 1 + tol &&
+      (let pa := (r.set! k lo); let pb := (r.set! k (lo + 1))
+       let fa := sample pa; let fb := sample pb
+       (fa < cutoff) != (fb < cutoff)))
+
+/-! ### the model's marcher on an integer-tagged sample box -/
+
+structure Box where
+  o : Pt
+  nx : Nat
+  ny : Nat
+  nz : Nat
+  vals : Array Float
+
+/-- several disjoint sample boxes written into one canvas by successive `AddField` calls -/
+abbrev Grid := List Box
+
+def Box.inBox (g : Box) (q : Pt) : Bool :=
+  g.o.1 ≤ q.1 && q.1 < g.o.1 + g.nx && g.o.2.1 ≤ q.2.1 && q.2.1 < g.o.2.1 + g.ny &&
+  g.o.2.2 ≤ q.2.2 && q.2.2 < g.o.2.2 + g.nz
+
+def Box.at (g : Box) (q : Pt) : Float :=
+  if g.inBox q then
+    let i := (q.1 - g.o.1).toNat; let j := (q.2.1 - g.o.2.1).toNat; let k := (q.2.2 - g.o.2.2).toNat
+    g.vals[(k * g.ny + j) * g.nx + i]!
+  else 0.0
+
+/-- the value the `AddField` calls leave at global sample position `q` (`+=` onto 0) -/
+def gridAt (g : Grid) (q : Pt) : Float := g.foldl (fun acc b => acc + b.at q) 0.0
+
+/-- blocks allocated by `AddField`: `chunkSectionsInRange(min, max)` — every chunk between the chunk of
+    `min` and the chunk of `max` (the exclusive upper bound itself), per axis -/
+def Box.allocated (g : Box) (b : Pt) : Bool :=
+  let lo := chunkOf g.o
+  let hi := chunkOf (g.o.1 + g.nx, g.o.2.1 + g.ny, g.o.2.2 + g.nz)
+  lo.1 ≤ b.1 && b.1 ≤ hi.1 && lo.2.1 ≤ b.2.1 && b.2.1 ≤ hi.2.1 && lo.2.2 ≤ b.2.2 && b.2.2 ≤ hi.2.2
+
+def gridAllocated (g : Grid) (b : Pt) : Bool := g.any (·.allocated b)
+
+/-- the canvas storage as the model's `Blocks`: block `b`, flat index ↦ sample -/
+def gridBlocks (g : Grid) : Blocks Float := fun b =>
+  if gridAllocated g b then
+    some fun idx =>
+      let n := marchingSectionSize
+      let x := idx % n; let y := (idx / n) % n; let z := idx / (n * n)
+      gridAt g (b.1 * n + x, b.2.1 * n + y, b.2.2 * n + z)
+  else none
+
+def canonTri (t : List Int) : List Int :=
+  match t with
+  | [a0, a1, a2, b0, b1, b2, c0, c1, c2] =>
+    let a := [a0, a1, a2]; let b := [b0, b1, b2]; let c := [c0, c1, c2]
+    let lt (x y : List Int) : Bool := x < y
+    if lt a b && lt a c then a ++ b ++ c else if lt b a && lt b c then b ++ c ++ a else c ++ a ++ b
+  | _ => t
+
+def listLt : List Int → List Int → Bool := fun a b => a < b
+
+def Box.nearCells (g : Box) : List Pt :=
+  (List.range (g.nx + 1)).flatMap fun (i : Nat) => (List.range (g.ny + 1)).flatMap fun (j : Nat) =>
+    (List.range (g.nz + 1)).map fun (k : Nat) =>
+      (g.o.1 - 1 + Int.ofNat i, g.o.2.1 - 1 + Int.ofNat j, g.o.2.2 - 1 + Int.ofNat k)
+
+def Box.isNearCell (g : Box) (p : Pt) : Bool :=
+  g.o.1 - 1 ≤ p.1 && p.1 < g.o.1 + g.nx && g.o.2.1 - 1 ≤ p.2.1 && p.2.1 < g.o.2.1 + g.ny &&
+  g.o.2.2 - 1 ≤ p.2.2 && p.2.2 < g.o.2.2 + g.nz
+
+/-- every cell with at least one corner in some sample box, once -/
+def gridCells : Grid → List Pt
+  | [] => []
+  | b :: rest => b.nearCells ++ (gridCells rest).filter (fun p => !b.isNearCell p)
+
+/-- the model's mesh: for every cell that can be non-trivial (a corner in a sample box; all other cells see
+    only zeros = outside), in the block that owns it: `fetchCell` → case index → table triangles →
+    `interpolateVerts` (engine T) + block offset; triangles with two coincident corners dropped (the weld). -/
+def marchGrid (g : Grid) (cutoff : Float) : List (List Int) :=
+  let n := marchingSectionSize
+  let bl := gridBlocks g
+  let tris := (gridCells g).flatMap fun p =>
+    let b := chunkOf p
+    let x := p.1 % n; let y := p.2.1 % n; let z := p.2.2 % n
+    match (if gridAllocated g b then fetchCell bl b x y z else none) with
+    | none => []
+    | some cs =>
+      let bits : List Bool := cs.map (fun v => decide (v < cutoff))
+      let c := caseIndex bits
+      let off : V3 Float := ⟨Float.ofInt (b.1 * n), Float.ofInt (b.2.1 * n), Float.ofInt (b.2.2 * n)⟩
+      let cpos (i : Nat) : V3 Float :=
+        let d := cornerPosOff i
+        ⟨Float.ofInt x + Float.ofInt d.1, Float.ofInt y + Float.ofInt d.2.1, Float.ofInt z + Float.ofInt d.2.2⟩
+      let vert (e : Nat) : List Int :=
+        let a := cA e; let bb := cB e
+        let v := (Gen.marching.interpolateVerts (cpos a) (cpos bb) (cs.getD a 0.0) (cs.getD bb 0.0) cutoff).Add off
+        [(v.x * 4).round.toInt64.toInt, (v.y * 4).round.toInt64.toInt, (v.z * 4).round.toInt64.toInt]
+      (caseTris c).filterMap fun t =>
+        let v1 := vert t.1; let v2 := vert t.2.1; let v3 := vert t.2.2
+        if v1 == v2 || v2 == v3 || v1 == v3 then none else some (canonTri (v1 ++ v2 ++ v3))
+  (tris.toArray.qsort listLt).toList
+
+def parseBoxes : Nat → List String → Option (List Box × List String)
+  | 0, r => some ([], r)
+  | k+1, ox :: oy :: oz :: nx :: ny :: nz :: rest => do
+    let o : Pt := (← int? ox, ← int? oy, ← int? oz)
+    let nx ← nat? nx; let ny ← nat? ny; let nz ← nat? nz
+    let cnt := nx * ny * nz
+    if rest.length < cnt then none
+    let vals ← (rest.take cnt).mapM int?
+    let (l, r) ← parseBoxes k (rest.drop cnt)
+    pure (⟨o, nx, ny, nz, (vals.map Float.ofInt).toArray⟩ :: l, r)
+  | _, _ => none
+
+def intsStr (l : List Int) : String := " ".intercalate (l.map toString)
+
+def takeNats (n : Nat) (ts : List String) : Option (Array Nat × List String) :=
+  if ts.length < n then none else do
+    let xs ← (ts.take n).mapM nat?
+    pure (xs.toArray, ts.drop n)
+
+def takeFloats (n : Nat) (ts : List String) : Option (Array Float × List String) :=
+  if ts.length < n then none else do
+    let xs ← (ts.take n).mapM hexF?
+    pure (xs.toArray, ts.drop n)
+
+def handle (op : String) (args : List String) : Option String := do
+  match op with
+  | "c09.march.grid" =>
+    match args with
+    | k :: rest => do
+      let k ← nat? k
+      let (g, r) ← parseBoxes k rest
+      if !r.isEmpty then none
+      let tris := marchGrid g 0.0
+      -- `March` (non-parallel path) panics when nothing at all was produced; the harness maps both to one token
+      if tris.isEmpty then pure "empty-or-panic"
+      else pure (toString tris.length ++ " " ++ " ".intercalate (tris.map intsStr))
+    | _ => none
+  | "c09.holds.closed" =>
+    match args with
+    | nv :: nt :: rest => do
+      let nv ← nat? nv; let nt ← nat? nt
+      let (idx, rest) ← takeNats (3 * nt) rest
+      if !rest.isEmpty then none
+      pure (closed nv idx)
+    | _ => none
+  | "c09.holds.outward" =>
+    match args with
+    | nv :: nt :: rest => do
+      let nv ← nat? nv; let nt ← nat? nt
+      let (idx, rest) ← takeNats (3 * nt) rest
+      let (pos, rest) ← takeFloats (3 * nv) rest
+      if !rest.isEmpty then none
+      let tris := trisOf idx
+      if !(tris.all fun t => t.1 < nv && t.2.1 < nv && t.2.2 < nv) then pure "false"
+      else pure (boolStr (signedVolume6 tris pos > 0))
+    | _ => none
+  | "c09.holds.near_iso" =>
+    match args with
+    | cpu :: cutoff :: ns :: rest => do
+      let cpu ← hexF? cpu; let cutoff ← hexF? cutoff; let ns ← nat? ns
+      -- shape tokens: kind as decimal 0/1/2, parameters as hex floats
+      let rec shapeToks : Nat → List String → Option (List Float × List String)
+        | 0, r => some ([], r)
+        | n+1, k :: r => do
+          let kind ← nat? k
+          let cnt := if kind == 0 then 5 else if kind == 1 then 7 else 8
+          let (fs, r') ← takeFloats cnt r
+          let (l, r'') ← shapeToks n r'
+          pure (Float.ofNat kind :: fs.toList ++ l, r'')
+        | _, _ => none
+      let (sf, rest) ← shapeToks ns rest
+      let (shapes, _) ← parseShapes ns sf
+      match rest with
+      | nv :: rest => do
+        let nv ← nat? nv
+        let (pos, rest) ← takeFloats (3 * nv) rest
+        if !rest.isEmpty then none
+        pure (boolStr ((List.range nv).all fun i => nearIsoVertex shapes cpu cutoff ⟨pos[3*i]!, pos[3*i+1]!, pos[3*i+2]!⟩))
+      | _ => none
+    | _ => none
+  | _ => none
 
 end Driver.C09
 
